@@ -41,34 +41,32 @@ class RefScheduler:
                 return e
         return None
 
-    def overtaken(self, label):
-        """a pending entry that had to fire before `label` (earlier due time, or the same
-        due time and installed earlier), or None"""
-        mine = self.entry(label)
-        for e in self.pending:
-            if e[2] != label and (e[0] < mine[0] or (e[0] == mine[0] and e[1] < mine[1])):
-                return e
-        return None
-
-    def overdue(self, now):
-        for e in self.pending:
-            if e[0] <= now:
-                return e
-        return None
-
     def fire(self, label):
         self._drop(label)
         self.state[label] = FIRED
 
 
-def judge(ref, fired, start, until):
+def snapshot(ref):
+    c = RefScheduler(len(ref.state))
+    c.seq, c.pending, c.due, c.state = ref.seq, list(ref.pending), list(ref.due), list(ref.state)
+    return c
+
+
+def judge(ref, fired, start, until, classify=False):
     """Compare what the loop did while the clock went from `start` to `until`
     (`fired` = [(label, clock seen by the callback)]) with the statement; updates `ref`.
     Returns None or (kind, details).  The sleep of the virtual loop is exact, so a task
     that becomes due while the loop runs fires at its due time and one that is overdue
-    when the loop starts fires at once."""
+    when the loop starts fires at once.
+
+    First pass: every comparison of instants is OR-ed into one condition (`|`, `&` on
+    booleans: one solver decision per call instead of one per comparison).  Only when that
+    condition is satisfiable the second pass (classify=True, on a snapshot) names the
+    clause that is broken."""
+    before = None if classify else snapshot(ref)
+    bad = False
     for pos, (label, clk) in enumerate(fired):
-        st = ref.state[label]
+        st = ref.state[label]            # labels and states are concrete
         if st == SUSPENDED:
             return "fired-after-suspend", dict(task=label, at=clk)
         if st == FIRED:
@@ -76,16 +74,31 @@ def judge(ref, fired, start, until):
         if st == NEVER:
             return "fired-uninstalled", dict(task=label, at=clk)
         due = ref.due[label]
-        if clk < due:
-            return "early", dict(task=label, at=clk, due=due)
-        e = ref.overtaken(label)
-        if e is not None:
-            return "order", dict(task=label, due=due, overtook=e[2], its_due=e[0], pos=pos)
-        want = due if due > start else start
-        if clk != want:
-            return "fire-time", dict(task=label, at=clk, due=due, loop_from=start)
+        mine = ref.entry(label)
+        if classify:
+            if clk < due:
+                return "early", dict(task=label, at=clk, due=due)
+            for e in ref.pending:
+                if e[2] != label and (e[0] < mine[0] or (e[0] == mine[0] and e[1] < mine[1])):
+                    return "order", dict(task=label, due=due, overtook=e[2], its_due=e[0], pos=pos)
+            want = due if due > start else start
+            if clk != want:
+                return "fire-time", dict(task=label, at=clk, due=due, loop_from=start)
+        else:
+            bad = bad | (clk < due)
+            for e in ref.pending:
+                if e[2] != label:
+                    # e had to fire first: earlier due time, or same time and installed earlier
+                    bad = bad | (e[0] < mine[0]) | ((e[0] == mine[0]) & (e[1] < mine[1]))
+            bad = bad | (((due > start) & (clk != due)) | ((due <= start) & (clk != start)))
         ref.fire(label)
-    e = ref.overdue(until)
-    if e is not None:
-        return "missed", dict(task=e[2], due=e[0], loop_until=until)
+    for e in ref.pending:
+        if classify:
+            if e[0] <= until:
+                return "missed", dict(task=e[2], due=e[0], loop_until=until)
+        else:
+            bad = bad | (e[0] <= until)
+    if bad:
+        v = judge(before, fired, start, until, classify=True)
+        return v if v is not None else ("reference-inconsistent", {})
     return None
